@@ -67,6 +67,12 @@ CHECKS.update({
          "Shares within 1e-4 of the cut-off accepted either way; value sets bounded as listed in evidence.bounds.", "§5 C18"),
 })
 
+CHECKS.update({
+ "C17": ("complete enumeration of orders for the sequence; bounded exhaustive enumeration of (order, length, ban set, filter subset) for barcodes",
+         "NucleobaseDeBruijnSequence is checked for every order 1..8 (11 thorough) with a bitset (length and every word exactly once). CreateBarcodes/CreateBarcodesWithBannedSequences are called for orders 2,3 (4), lengths n..n+4, 20, 60, with ALL ban sets of size 0, 1, 2 over ATGC strings of length 2..3 (both orders of each pair; all triples of 2-letter bans thorough) and all 16 subsets of four filter predicates; every barcode must be a substring of the validated sequence of the requested length, no n-letter word may occur in two barcodes, no barcode may contain a ban or its reverse complement, every filter must accept every barcode.",
+         "Maximality of the list not checked; ban strings longer than 3 only in a few fixed thorough cases.", "§5 C17"),
+})
+
 NOT_YET = {}
 
 props = [json.loads(l) for l in open('/verif/properties.jsonl')]
